@@ -71,6 +71,42 @@ INVARIANT Verdict
 CHECK_DEADLOCK FALSE
 """
 
+DESIGN_CFG = """CONSTANTS
+  BucketNames = {"A", "B"}
+  Ticks = {0, 1}
+  Durs = {0, 1}
+  Datas = {%(datas)s}
+  MaxRows = %(rows)d
+  ReplaceLastScoped = %(rl)s
+  ReplaceScoped = %(rs)s
+  OrderByStart = %(ob)s
+SPECIFICATION Spec
+CONSTRAINT Bound
+INVARIANT IdsGloballyUnique
+PROPERTY Refines
+PROPERTY FrameOK
+CHECK_DEADLOCK FALSE
+"""
+
+
+def design_phase(rep, tier):
+    """SQL-level design layer of the sqlite backend refines AwStore; the pinned tree's statements are refuted."""
+    q = tier == "quick"
+    size = dict(datas='"d1", "d2"', rows=2) if q else dict(datas='"d1"', rows=3)
+    res = tlc.model_check("AwSqliteDesign", DESIGN_CFG % dict(rl="TRUE", rs="TRUE", ob="TRUE", **size), tag="mc_sqldesign", heap="8g")
+    rep.add_model(res, "AwSqliteDesign (global event ids, bucketrow column, the SQL row selections of replace_last / replace / get_events / delete / delete_bucket) refines AwStore's step relation "
+                       "(Refines) and changes no other bucket (FrameOK), %d rows, 2 buckets" % size["rows"])
+    neg = {}
+    for name, rl, rs, ob in (("replace_last selects max(endtime) without bucket condition", "FALSE", "TRUE", "TRUE"),
+                             ("replace re-parents a row of another bucket", "TRUE", "FALSE", "TRUE"),
+                             ("get_events ordered by end time", "TRUE", "TRUE", "FALSE")):
+        r = tlc.model_check("AwSqliteDesign", DESIGN_CFG % dict(rl=rl, rs=rs, ob=ob, datas='"d1"', rows=2), tag="mc_sqldesign_neg", expect_ok=False)
+        if r["ok"]:
+            raise tlc.TLCFailure("negative control '%s' was not refuted by TLC" % name)
+        neg[name] = "refuted after %d states" % r["states"]
+    rep.notes["design_layer_negative_controls"] = neg
+
+
 PROFILE = {"C02": "history", "C04": "frame", "C05": "lifecycle"}
 SIZES = {  # (tlc simulated behaviours, depth, random histories)
     "quick": (400, 14, 500),
@@ -155,6 +191,8 @@ def run(prop, tier, seed, replay=None):
         rep.add_model(res, "AwStore lifecycle instance: 2 buckets, 2 metadata values per field, <=1 event; invariants TypeOK, IdsUniquePerBucket; action properties Frame, CreatedEmpty, CreatedStable")
         res = tlc.model_check("MC_AwStore", MC_EVENTS_QUICK if tier == "quick" else MC_EVENTS_THOROUGH, tag="mc_ev")
         rep.add_model(res, "AwStore event instance: 2 buckets, 3 ids, ticks {0,1}, durations {0,1}, <=2 events per bucket, all ops incl. bulk upsert and out-of-contract ids")
+        if prop in ("C02", "C04"):
+            design_phase(rep, tier)
     # ---- 2. behaviours: TLC simulation of AwStoreGen + random abstract histories
     behaviours = []
     if replay is not None:
